@@ -63,6 +63,8 @@ class Writer(object):
         self.tm = {}
         self.subst = {}          # id(sub-blueprint) -> text (let-bound names in scope)
         self.int_numeral_rationals = False   # write some rationals as (/ m n) although numerals are of sort Int
+        self.annotate = False                # wrap some terms in (! t :named n ...)
+        self.nann = 0
 
     def pct(self, p):
         return self.var and self.rnd.randrange(100) < p
@@ -139,6 +141,16 @@ class Writer(object):
         raise ValueError(ty)
 
     def term(self, t):
+        s = self._term(t)
+        if self.annotate and t[0] not in ("CONST",) and self.pct(4):
+            # (! t attributes) denotes t
+            self.nann += 1
+            self.tags.add("annotated-term")
+            s = "(! %s %s)" % (s, self.rnd.choice([":named ann!%d" % self.nann, ":weight 3 :named |ann %d|" % self.nann,
+                                                     ":origin (some (nested) s-expr) :named ann!%d" % self.nann]))
+        return s
+
+    def _term(self, t):
         if self.subst and id(t) in self.subst:
             return self.subst[id(t)]
         op, params, ch = t
